@@ -233,6 +233,7 @@ func retType(fd *ast.FuncDecl) string {
 func translateFunc(p *pkg, consts map[string][2]string, recv, name, leanName string) string {
 	fd := p.funcDecl(recv, name)
 	if fd == nil {
+		noteIncomplete("helper " + leanName + ": function not found in source")
 		return fmt.Sprintf("-- %s: function not found in source\n\n", leanName)
 	}
 	env := &trEnv{p: p, params: map[string]int{}, consts: consts}
@@ -254,6 +255,7 @@ func translateFunc(p *pkg, consts map[string][2]string, recv, name, leanName str
 		return nil
 	}
 	fail := func(err error) string {
+		noteIncomplete(fmt.Sprintf("helper %s: not translated (%v)", leanName, err))
 		return fmt.Sprintf("-- %s: not translated (%v)\n\n", leanName, err)
 	}
 	if err := add(fd.Recv); err != nil {
@@ -552,6 +554,7 @@ func genHelpers(cemi *pkg) string {
 		if c, ok := consts[n]; ok {
 			fmt.Fprintf(&sb, "def %s : BitVec %d := %s\n", n, widths[c[1]], c[0])
 		} else {
+			noteIncomplete("constant " + n + ": not found or not a literal expression")
 			fmt.Fprintf(&sb, "-- %s: constant not found\n", n)
 		}
 	}
